@@ -1,10 +1,56 @@
-(* C13 — properties of the loader model (coq/C12/Load.v). *)
+(* C13 — properties of the loader model (coq/C12/Load.v): entry points for Properties/C13.v. *)
 From Coq Require Import ZArith List String Bool Lia.
 From Acme.C12 Require Import Proto NetModel Load.
+From Acme.C13 Require Import ProofsWf.
 Import ListNotations.
 Open Scope Z_scope.
+Open Scope string_scope.
 
 (* The model is a total function: every tree is mapped to an error or to a network. *)
 Lemma load_total_lemma : forall (now : time) (p : PNet),
   (exists c, load now p = Err c) \/ (exists n, load now p = Ok n).
 Proof. intros now p. destruct (load now p) as [n|c]; [right|left]; eauto. Qed.
+
+(* ---- a non-trivial tree that loads: the hypotheses of load_ok_wf are satisfiable *)
+Definition pe (id name : string) : option PEntity :=
+  Some {| pe_id := id; pe_kind := 0; pe_name := name; pe_desc := ""; pe_time := Some (1700000000, 5) |}.
+
+Definition ex_std (id name ty : string) : PSignal := PSig (pe id name) 1 0 0 [] (PSBStd ty "").
+
+Definition ex_mux : PSignal :=
+  PSig (pe "mux" "mux") 3 0 0 []
+       (PSBMux [ex_std "f" "fixed" "t4"; ex_std "g" "grouped" "t4"; ex_std "g" "grouped" "t4"] ["f"] 2 8
+               [[{| prf_id := "f"; prf_pos := 0 |}; {| prf_id := "g"; prf_pos := 4 |}];
+                [{| prf_id := "f"; prf_pos := 0 |}; {| prf_id := "g"; prf_pos := 4 |}]]).
+
+Definition ex_msg : PMessage :=
+  {| pm_ent := pe "m" "msg"; pm_signals := [ex_std "s" "sig" "t4"; ex_mux];
+     pm_payload := Some [{| prf_id := "s"; prf_pos := 0 |}; {| prf_id := "mux"; prf_pos := 8 |}];
+     pm_size := 8; pm_id := 1; pm_static := 0; pm_has_static := false; pm_prio := 2; pm_bo := 1; pm_cycle := 10;
+     pm_send := 1; pm_delay := 0; pm_startdelay := 0; pm_receivers := [{| prc_node := "n"; prc_number := 1 |}];
+     pm_attrs := [{| pas_entity_id := "m"; pas_attr_id := "a"; pas_val := PAVInt 3 |}] |}.
+
+Definition ex_pnet : PNet :=
+  {| pn_ent := pe "net" "net";
+     pn_buses := [{| pb_ent := pe "b" "bus";
+                     pb_ifaces := [{| pif_number := 0; pif_node := "n"; pif_msgs := [ex_msg] |}];
+                     pb_baud := 500000; pb_type := 1; pb_builder := "cb"; pb_attrs := [] |}];
+     pn_builders := [{| pcb_ent := pe "cb" "builder"; pcb_ops := [{| pop_kind := 2; pop_from := 0; pop_len := 11 |}] |}];
+     pn_nodes := [{| pnd_ent := pe "n" "node"; pnd_id := 1; pnd_ifcount := 2; pnd_attrs := [] |}];
+     pn_types := [{| pst_ent := pe "t4" "t4"; pst_kind := 3; pst_size := 4; pst_signed := false;
+                     pst_min := 0; pst_max := 0; pst_scale := 0; pst_offset := 0 |}];
+     pn_units := []; pn_enums := [];
+     pn_attrs := [{| pat_ent := pe "a" "att"; pat_type := 2; pat_body := PABInt 0 0 10 false |}] |}.
+
+Example ex_pnet_loads : exists n, load (0, 0) ex_pnet = Ok n /\ pnet_u32_ok ex_pnet /\
+                                  List.length (flat_map if_msgs (flat_map b_ifaces (n_buses n))) = 1%nat.
+Proof.
+  eexists. split; [vm_compute; reflexivity|]. split; [|reflexivity].
+  intros pm Hpm. cbn in Hpm. destruct Hpm as [<-|[]]. cbn. lia.
+Qed.
+
+(* a tree that the loader refuses, and why: the second group places the shared signal elsewhere *)
+Example ex_refused :
+  load (0, 0) {| pn_ent := None; pn_buses := []; pn_builders := []; pn_nodes := []; pn_types := [];
+                 pn_units := []; pn_enums := []; pn_attrs := [] |} = Err MissingField.
+Proof. reflexivity. Qed.
